@@ -1,5 +1,6 @@
 import OsacaVerif.Model.LCD
 import OsacaVerif.Spec.Deps
+import OsacaVerif.Lemmas.ScanLocal
 /-
   C14 — Loop-carried dependencies are invariant under rotation of the loop body.
 
@@ -54,6 +55,76 @@ theorem renumber_lines (k : List Ins) : (renumber k).map (·.line) = (List.range
   · simp
   · intro j h1 h2
     simp
+
+/-! ### stream locality of the producer's scan -/
+
+/-- **scanTarget_append** (stream locality, registers / flags; ∀ streams): what a producer's scan
+    for target `t` emits over `a ++ b` is what it emits over `a`, followed — unless an instruction of
+    `a` overwrote `t` — by what it emits over `b`.  So the emissions up to a point of the stream
+    depend only on the stream segment up to that point. -/
+theorem scanTarget_append (isa : Isa) (t : Target) (tag : Tag) (a b : List Ins) :
+    scanTarget isa t tag (a ++ b) =
+      scanTarget isa t tag a ++ (if a.any (isWritten isa t) then [] else scanTarget isa t tag b) :=
+  DG.scanTarget_append isa t tag a b
+
+/-- **scanMem_append** (stream locality, memory destinations): the same for the store→load scan;
+    the register-change state is threaded through `a` (`memThread`) and the scan ends at a
+    write-back overwrite of the base or at a store to the same operand (`memStops`). -/
+theorem scanMem_append (isa : Isa) (m : Mem) (s : RegState) (a b : List Ins) :
+    scanMem isa m s (a ++ b) =
+      scanMem isa m s a ++ (if a.any (memStops isa m) then [] else scanMem isa m (memThread s a) b) :=
+  DG.scanMem_append isa m s a b
+
+/-- **window_suffices** (one statement per scan kind, then for the producer as a whole):
+    if any instruction of the prefix `a` (e.g. one full iteration) writes `t`, nothing is emitted
+    beyond `a`; the memory scan likewise; and the producer's own next occurrence `p'` (same
+    destinations) ends every scan of `p`, so no dependency spans more than one full iteration and two
+    kernel copies contain every edge.  Register destinations must be self-dependent (`ReflDests`,
+    C12 reflexivity; unconditional on x86: `reflDests_x86`). -/
+theorem window_suffices (isa : Isa) (fd : Bool) :
+    (∀ (t : Target) (tag : Tag) (a b : List Ins), a.any (isWritten isa t) = true →
+      scanTarget isa t tag (a ++ b) = scanTarget isa t tag a) ∧
+    (∀ (m : Mem) (s : RegState) (a b : List Ins), a.any (memStops isa m) = true →
+      scanMem isa m s (a ++ b) = scanMem isa m s a) ∧
+    (∀ (p p' : Ins) (rest more : List Ins), p'.dst = p.dst → p'.srcDst = p.srcDst → ReflDests isa p →
+      findDepending isa fd p (rest ++ p' :: more) = findDepending isa fd p (rest ++ [p'])) :=
+  ⟨fun t tag a b h => scanTarget_window isa t tag a b h,
+   fun m s a b h => scanMem_window isa m s a b h,
+   fun p p' rest more hd hsd hr => findDepending_window isa fd p p' rest more hd hsd hr⟩
+
+/-- on x86 the window property needs no hypothesis about the registers -/
+theorem window_suffices_x86 (fd : Bool) (p p' : Ins) (rest more : List Ins)
+    (hd : p'.dst = p.dst) (hsd : p'.srcDst = p.srcDst) :
+    findDepending .x86 fd p (rest ++ p' :: more) = findDepending .x86 fd p (rest ++ [p']) :=
+  findDepending_window .x86 fd p p' rest more hd hsd (reflDests_x86 p)
+
+/-- **stream_local** (dependency of an occurrence on an earlier one, as a function of the segment
+    between them): of all emissions of producer `p` over the stream `seg ++ c :: more`, those naming
+    consumer `c` are `tagsAt isa fd p seg c` — a function of `p`, the segment strictly between, and
+    `c`; nothing after `c` matters, `findDepending` never sees anything before `p`, and line numbers
+    play no role (`tagsAt_erase`). -/
+theorem stream_local (isa : Isa) (fd : Bool) (p : Ins) (seg more : List Ins) (c : Ins)
+    (h1 : ∀ x ∈ seg, x.line ≠ c.line) (h2 : ∀ x ∈ more, x.line ≠ c.line) :
+    (findDepending isa fd p (seg ++ c :: more)).filter (fun x => x.1 == c.line) =
+      (tagsAt isa fd p seg c).map (fun tg => (c.line, tg)) ∧
+    tagsAt isa fd (eraseLine p) (seg.map eraseLine) (eraseLine c) = tagsAt isa fd p seg c :=
+  ⟨findDepending_at isa fd p seg more c h1 h2, tagsAt_erase isa fd p seg c⟩
+
+-- non-vacuity: producer `add rax` (line 1), one iteration [reader, own copy], then more readers: the
+-- own copy (a write of `rax`) ends the scan — the reader on line 4 is not reached; the producer's
+-- destinations are self-dependent; the emission naming line 2 is the `tagsAt` value
+example :
+    let r (n : String) : Op := .reg { name := Text.ofString n }
+    let mk (line : Nat) (src sd : List Op) : Ins :=
+      { line := line, src := src, dst := [], srcDst := sd, lat := 1, latWoLoad := none, hasLd := false,
+        isLd := false, changes := [], changesPost := [] }
+    let p := mk 1 [] [r "rax"]
+    findDepending .x86 false p ([mk 2 [r "eax"] [r "rbx"]] ++ mk 3 [] [r "rax"] :: [mk 4 [r "rax"] [r "rcx"]]) =
+      [(2, .plain), (3, .plain)] ∧
+    ([mk 2 [r "eax"] [r "rbx"], mk 3 [] [r "rax"]].any (isWritten .x86 (.reg { name := Text.ofString "rax" }))) = true ∧
+    tagsAt .x86 false p [] (mk 2 [r "eax"] [r "rbx"]) = [.plain] ∧
+    tagsAt .x86 false p [mk 2 [r "eax"] [r "rbx"], mk 3 [] [r "rax"]] (mk 4 [r "rax"] [r "rcx"]) = [] := by
+  decide +kernel
 
 -- non-vacuity: rotating the two-instruction accumulation loop keeps both cycles and their latencies
 example :
